@@ -426,6 +426,25 @@ impl<'src> Walker<'src>
 	}
 	
 	
+	pub fn maybe_expect_char_glued(
+		&mut self,
+		wanted_char: char)
+		-> bool
+	{
+        let c = self.next_char();
+
+        if c.eq_ignore_ascii_case(&wanted_char)
+		{
+            self.cursor_index += c.len_utf8();
+			true
+		}
+		else
+        {
+            false
+        }
+	}
+	
+	
 	pub fn expect_linebreak(
         &mut self,
 		report: &mut diagn::Report)
